@@ -12,7 +12,7 @@ var LineSigma = []string{
 	"a", "b", "true", "1", "1.5",
 	`"s"`, `"q\"\\é"`, "\"x\\\ny\"", "\"\t\"",
 	"/r/", "/a//b/",
-	"//c", "/*c*/", "| d e",
+	"//c", "/*c*/", "/*m\nn*/", "| d e",
 	"=", "+", "{", "}", "[", "]", ".", ",", ":", "!", "?",
 }
 
